@@ -6,6 +6,7 @@
 //! trusted: R15 (deep slices): KeysManager::sign_spendable_outputs_psbt: the statement that (re)fills the per-channel signer cache in the StaticPaymentOutput and DelayedPaymentOutput arms, verbatim as functions of the cache and the descriptor; derive_channel_keys is the uninterpreted signer_of(channel_keys_id); R8: `a != b` on 32-byte ids -> arr_ne; locating the input, signing and the StaticOutput arm are dropped and not claimed
 //! trusted: R15 (deep slice): ChannelMonitorImpl::get_spendable_outputs: the body of the loop over the outputs of a confirmed transaction, verbatim as a function of (index, output); the descriptor structs and enum SpendableOutputDescriptor are extracted from sign/mod.rs; the monitor is a six-field skeleton; scripts compare by identity; R8: `opt.as_ref() == Some(&x)` -> option_script_is (verified helper)
 //! trusted: R15 (deep slice): ChannelMonitorImpl::get_broadcasted_holder_claims: the body of the closure that turns an HTLC descriptor of our confirmed commitment into a claim package, verbatim as a function; PackageTemplate::build_package / HolderHTLCOutput::build record their arguments; the revokable-script triple and the descriptor list are dropped and not claimed
+//! trusted: R15 (deep slice): ChannelMonitorImpl::get_counterparty_output_claim_info: the per-HTLC block (preimage lookup, the decision to claim, the package built) verbatim as a function; the builders record their arguments; payment_preimages is a ghost-map stub; locating the to_remote output and the corrupt-data guard are dropped and not claimed
 //! assume: every requested output carries at most MAX_MONEY (a valid TxOut): the loop sums them with bitcoin::Amount's `+=`, which panics on u64 overflow before the `>= input_value` test can refuse (observation O8 in DESIGN); at most 1_000_000 outputs
 //! assume: transaction weight and witness weight are at most 4_000_000 (consensus block weight limit): the function computes fees in i64 after `as i64` casts
 //! trusted: assume_specification for core::cmp::max / core::cmp::min (std definitions): present in every unit so that a change that introduces them is verified instead of being rejected by the tool
@@ -332,6 +333,54 @@ impl TrustedTx { #[verifier::external_body] pub fn txid(&self) -> (r: Txid) ensu
 //@with
     if htlc_descriptor.htlc.offered { htlc_descriptor.htlc.cltv_expiry } else { conf_height };
 //@end
+}
+
+// ---- get_counterparty_output_claim_info: claims on the HTLC outputs of a (non-revoked) counterparty commitment --------------
+pub mod counterparty_claims {
+use vstd::prelude::*;
+#[derive(Clone, Copy)] pub struct Txid(pub u64);
+#[derive(Clone, Copy)] pub struct PublicKey(pub u64);
+#[derive(Clone, Copy)] pub struct PaymentHash(pub u64);
+#[derive(Clone, Copy)] pub struct PaymentPreimage(pub u64);
+#[derive(Clone, Copy)] pub struct HTLCOutputInCommitment { pub offered: bool, pub amount_msat: u64, pub cltv_expiry: u32, pub payment_hash: PaymentHash, pub transaction_output_index: Option<u32> }
+#[derive(Clone, Copy)] pub struct ChannelTransactionParameters { pub id: u64 }
+pub struct FundingScope { pub channel_parameters: ChannelTransactionParameters }
+pub struct CounterpartyOfferedHTLCOutput { pub point: PublicKey, pub preimage: PaymentPreimage, pub htlc: HTLCOutputInCommitment, pub params: ChannelTransactionParameters, pub conf: Option<u32> }
+impl CounterpartyOfferedHTLCOutput { pub fn build(point: PublicKey, preimage: PaymentPreimage, htlc: HTLCOutputInCommitment, params: ChannelTransactionParameters, conf: Option<u32>) -> (r: Self)
+    ensures r == (CounterpartyOfferedHTLCOutput { point, preimage, htlc, params, conf }) { CounterpartyOfferedHTLCOutput { point, preimage, htlc, params, conf } } }
+pub struct CounterpartyReceivedHTLCOutput { pub point: PublicKey, pub htlc: HTLCOutputInCommitment, pub params: ChannelTransactionParameters, pub conf: Option<u32> }
+impl CounterpartyReceivedHTLCOutput { pub fn build(point: PublicKey, htlc: HTLCOutputInCommitment, params: ChannelTransactionParameters, conf: Option<u32>) -> (r: Self)
+    ensures r == (CounterpartyReceivedHTLCOutput { point, htlc, params, conf }) { CounterpartyReceivedHTLCOutput { point, htlc, params, conf } } }
+pub enum PackageSolvingData { CounterpartyOfferedHTLCOutput(CounterpartyOfferedHTLCOutput), CounterpartyReceivedHTLCOutput(CounterpartyReceivedHTLCOutput) }
+pub struct PackageTemplate { pub txid: Txid, pub vout: u32, pub data: PackageSolvingData, pub counterparty_spendable_height: u32 }
+impl PackageTemplate { pub fn build_package(txid: Txid, vout: u32, data: PackageSolvingData, counterparty_spendable_height: u32) -> (r: Self)
+    ensures r == (PackageTemplate { txid, vout, data, counterparty_spendable_height }) { PackageTemplate { txid, vout, data, counterparty_spendable_height } } }
+pub struct PreimageMap { pub m: Ghost<Map<PaymentHash, (PaymentPreimage, Vec<u8>)>> }
+impl PreimageMap { #[verifier::external_body] pub fn get(&self, h: &PaymentHash) -> (r: Option<&(PaymentPreimage, Vec<u8>)>)
+    ensures r is Some == self.m@.contains_key(*h), r is Some ==> *r->Some_0 == self.m@[*h] { unimplemented!() } }
+pub struct ChannelMonitorImpl { pub payment_preimages: PreimageMap }
+impl ChannelMonitorImpl {
+//@extract lightning/src/chain/channelmonitor.rs :: impl ChannelMonitorImpl :: fn get_counterparty_output_claim_info
+//@slice R15
+    let preimage = $pe:seq; if $c:cond { $body:straight claimable_outpoints.push(counterparty_package); }
+//@with
+    fn claim_for_counterparty_htlc(&self, funding_spent: &FundingScope, htlc: &HTLCOutputInCommitment, transaction_output_index: u32, commitment_txid: Txid, per_commitment_point: PublicKey, confirmation_height: Option<u32>, claimable_outpoints: &mut Vec<PackageTemplate>) {
+        let preimage = $pe; if $c { $body claimable_outpoints.push(counterparty_package); }
+    }
+//@requires
+    old(claimable_outpoints)@.len() == 0,
+//@ensures P C07 on-a-counterparty-commitment-an-htlc-we-offered-is-always-claimed-at-its-expiry-and-an-htlc-offered-to-us-exactly-when-we-know-its-preimage-with-that-preimage
+    !htlc.offered ==> final(claimable_outpoints)@ =~= seq![PackageTemplate { txid: commitment_txid, vout: transaction_output_index, counterparty_spendable_height: htlc.cltv_expiry,
+        data: PackageSolvingData::CounterpartyReceivedHTLCOutput(CounterpartyReceivedHTLCOutput { point: per_commitment_point, htlc: *htlc, params: funding_spent.channel_parameters, conf: confirmation_height }) }],
+    htlc.offered && self.payment_preimages.m@.contains_key(htlc.payment_hash) ==> final(claimable_outpoints)@ =~= seq![PackageTemplate { txid: commitment_txid, vout: transaction_output_index, counterparty_spendable_height: htlc.cltv_expiry,
+        data: PackageSolvingData::CounterpartyOfferedHTLCOutput(CounterpartyOfferedHTLCOutput { point: per_commitment_point, preimage: self.payment_preimages.m@[htlc.payment_hash].0, htlc: *htlc, params: funding_spent.channel_parameters, conf: confirmation_height }) }],
+    htlc.offered && !self.payment_preimages.m@.contains_key(htlc.payment_hash) ==> final(claimable_outpoints)@.len() == 0,
+//@mutant our_own_htlc_not_claimed_back_after_its_timeout
+    if preimage.is_some() || !htlc.offered {
+//@with
+    if preimage.is_some() {
+//@end
+}
 }
 }
 fn main() {}
